@@ -14,6 +14,7 @@ type LibModel struct {
 	Doc     string
 	Event   bool
 	ModKeys []string // ghost/heap keys the function writes
+	WritesArgs bool  // writes through its pointer arguments (also when wrapped in an interface)
 	Fn    func(e *FuncEnc, in ssa.Instruction, argVals []ssa.Value, args []string, rts []types.Type, res ssa.Value) bool
 }
 
@@ -208,7 +209,7 @@ func init() {
 	}}
 	L["(net/http.Header).Values"] = pureUF("deterministic function of (header map, key)")
 	bodyFail := func(doc string, errIdx int) LibModel {
-		return LibModel{Doc: doc, Event: true, Fn: func(e *FuncEnc, in ssa.Instruction, av []ssa.Value, a []string, rts []types.Type, res ssa.Value) bool {
+		return LibModel{Doc: doc, Event: true, WritesArgs: true, Fn: func(e *FuncEnc, in ssa.Instruction, av []ssa.Value, a []string, rts []types.Type, res ssa.Value) bool {
 			rs := e.freshResults("body", rts)
 			e.setResult(res, rs)
 			if errIdx < len(rs) {
